@@ -126,6 +126,9 @@ fn canon(r: &Result<Frame<'_>, Error>) -> String {
         Err(Error::FrameVersion(n)) => format!("err version {n}"),
         Err(Error::InvalidOpCode(n)) => format!("err opcode {n}"),
         Err(Error::InvalidBindType(n)) => format!("err bindtype {n}"),
+        // (an error kind PROTOCOL.md does not know: the harness still builds and reports what it decodes to)
+        #[allow(unreachable_patterns)]
+        Err(e) => format!("err other {e}"),
     }
 }
 
